@@ -85,6 +85,16 @@ def chunk_roundtrip(chunk, acc):
                 d2 = call(c2.decrypt_packet, c2.EncryptedPacket(ect, esig), key, None, iv, False)
                 if d2 != dec:
                     acc.fail("C05/decrypt/no-verify", case, dec.hex()[:120], d2.hex()[:120] if isinstance(d2, bytes) else d2)
+                # the same through BeaconKeys built by every constructor with this IV (the client encrypts that way)
+                for label, bk in (("direct", call(c2.BeaconKeys, key, hk, iv)), ("from_aes_rand", call(c2.BeaconKeys.from_aes_rand, key, iv) if iv != DEFAULT_IV else call(c2.BeaconKeys.from_aes_rand, key))):
+                    if isinstance(bk, str):
+                        acc.fail("C05/keys/constructor-exception", case, "BeaconKeys", bk)
+                        continue
+                    k2, h2 = (key, hk) if label == "direct" else R.derive_keys(key)
+                    p2 = call(lambda: c2.encrypt_packet(pt, **bk._asdict()))
+                    e2 = R.encrypt_packet(pt, k2, h2, iv)
+                    if isinstance(p2, str) or (bytes(p2.ciphertext), bytes(p2.signature)) != e2:
+                        acc.fail("C05/keys/packet-not-under-configured-iv/" + label, case, {"ct": e2[0].hex()[:64], "iv": iv.hex()}, p2 if isinstance(p2, str) else {"ct": bytes(p2.ciphertext).hex()[:64], "keys_iv": bytes(bk.iv).hex()})
                 if R.cbc_decrypt(key, iv, bytes(pkt.ciphertext)) != dec:
                     acc.fail("C05/decrypt/reference-disagrees", case, R.cbc_decrypt(key, iv, bytes(pkt.ciphertext)).hex()[:120], dec.hex()[:120])
     acc.sample({"plaintext_len": 17, "aes_key": key.hex(), "iv": "default", "expect_padding": "A" * 15})
